@@ -343,7 +343,103 @@ def _dominates(repo, defs):
                              "if k_dom_feas cv1 cv2 then k_dom_pareto obj1 obj2 else k_dom_cvlt cv1 cv2", "dominates: the whole body"))
 
 
-def _choice_args(call, where, fnname="np.random.choice"):
+FALLBACK = "if random_state is None:\n    random_state = global_prng"
+
+
+def _rs_fallback(fn, where):
+    """the statement that names the draw source: `if random_state is None: random_state = global_prng`, a top-level statement of the
+    function, either right at the top of a function with a parameter `random_state = None` or right after
+    `random_state = kwargs.get('random_state')` (pymoo's `_do` / `do`).  No other binding of `random_state`.  Returns the `if` node"""
+    body = _stmts(fn.body)
+    ifs = [(i, s) for i, s in enumerate(body) if isinstance(s, ast.If) and U(s) == FALLBACK]
+    if len(ifs) != 1:
+        _fail("%s: expected exactly one top-level `if random_state is None: random_state = global_prng`" % where)
+    pos, node = ifs[0]
+    params = [a.arg for a in fn.args.posonlyargs + fn.args.args + fn.args.kwonlyargs]
+    binds = [n for n in ast.walk(fn) if isinstance(n, ast.Name) and n.id == "random_state" and isinstance(n.ctx, ast.Store)]
+    if "random_state" in params:
+        defaults = dict(zip([a.arg for a in fn.args.args][len(fn.args.args) - len(fn.args.defaults):], fn.args.defaults))
+        defaults.update({a.arg: d for a, d in zip(fn.args.kwonlyargs, fn.args.kw_defaults)})
+        d = defaults.get("random_state")
+        if d is None or U(d) != "None":
+            _fail("%s: parameter random_state has no default None" % where)
+        if pos != 0 or len(binds) != 1:
+            _fail("%s: the generator fallback is not the first statement / random_state is rebound" % where)
+        style = "parameter"
+    else:
+        if not (pos >= 1 and isinstance(body[pos - 1], ast.Assign) and U(body[pos - 1]) == "random_state = kwargs.get('random_state')" and len(binds) == 2
+                and fn.args.kwarg is not None and fn.args.kwarg.arg == "kwargs"):
+            _fail("%s: random_state is neither a parameter nor taken from kwargs.get('random_state') right before the fallback" % where)
+        style = "kwargs.get"
+    node._c06_style = style
+    return node
+
+
+DRAW_METHODS = {"choice", "random", "randint", "integers", "binomial", "permutation", "shuffle", "permuted", "random_sample", "rand", "randn", "ranf",
+                "sample", "normal", "uniform", "multinomial", "standard_normal", "poisson", "beta", "gamma", "exponential", "bytes", "seed"}
+GLOBAL_ROOTS = ("np.random", "numpy.random")
+PASS_ON = ("self.hillclimb", "self.reduced_exchange")
+
+
+def _draw_sites(repo, defs):
+    """every random draw of pymoo_addon.py: (function, drawn method / helper that draws, the object it draws from).  A function that
+    draws must carry the fallback statement before its first draw; any mention of the module-level streams (np.random, global_prng)
+    outside that statement is a row of its own (so the lemma `all receivers are random_state` fails)"""
+    tree = P.parse_file(repo, ADDON)
+    imp = [n for n in tree.body if isinstance(n, ast.ImportFrom) and any(a.name == "global_prng" or a.asname == "global_prng" for a in n.names)]
+    if len(imp) != 1 or imp[0].module != "pybrops.core.random.prng" or [(a.name, a.asname) for a in imp[0].names] != [("global_prng", None)]:
+        _fail("pymoo_addon: global_prng is no longer `from pybrops.core.random.prng import global_prng`")
+    if any(isinstance(t, ast.Name) and t.id in ("global_prng", "np", "numpy") for n in ast.walk(tree) if isinstance(n, (ast.Assign, ast.AugAssign, ast.AnnAssign))
+           for t in (n.targets if isinstance(n, ast.Assign) else [n.target])):
+        _fail("pymoo_addon: global_prng / np is rebound")
+    funs = []
+    for n in tree.body:
+        if isinstance(n, ast.FunctionDef): funs.append((n.name, n))
+        elif isinstance(n, ast.ClassDef):
+            for m in n.body:
+                if isinstance(m, ast.FunctionDef): funs.append((n.name + "." + m.name, m))
+                elif isinstance(m, ast.ClassDef): _fail("pymoo_addon: nested class %s.%s" % (n.name, m.name))
+    sites, fallbacks = [], []
+    for q, fn in funs:
+        if any(isinstance(n, (ast.FunctionDef, ast.Lambda, ast.AsyncFunctionDef)) for n in ast.walk(fn) if n is not fn):
+            _fail("%s: nested function (draw sites cannot be attributed)" % q)
+        rows = []
+        for n in ast.walk(fn):
+            if isinstance(n, ast.Call):
+                f = n.func
+                if isinstance(f, ast.Attribute) and f.attr in DRAW_METHODS and not (U(f.value) == "self" or U(f) in PASS_ON):
+                    rows.append((n.lineno, f.attr, U(f.value)))
+                elif isinstance(f, ast.Name) and f.id == "randint":
+                    a = U(P.the_assignment(fn, "randint"))
+                    ok = a == "random_state.integers if hasattr(random_state, 'integers') else random_state.randint"
+                    rows.append((n.lineno, "randint", "random_state" if ok else "<%s>" % a))
+                elif (isinstance(f, ast.Name) and f.id == "tiled_choice") or U(f) in PASS_ON:
+                    kw = [k for k in n.keywords if k.arg == "random_state"]
+                    if isinstance(f, ast.Name) and len(n.args) == 3 and not kw: src = U(n.args[2])
+                    elif len(kw) == 1 and (not isinstance(f, ast.Name) or len(n.args) == 2): src = U(kw[0].value)
+                    else: src = "<none>"
+                    rows.append((n.lineno, U(f), src))
+            elif isinstance(n, ast.Attribute) and U(n) in GLOBAL_ROOTS:
+                rows.append((n.lineno, "<module stream>", U(n)))
+        gp = [n for n in ast.walk(fn) if isinstance(n, ast.Name) and n.id == "global_prng"]
+        if not rows and not gp: continue
+        fb = _rs_fallback(fn, q)
+        for n in gp:
+            if not any(n is x for x in ast.walk(fb)): rows.append((n.lineno, "<module stream>", "global_prng"))
+        if rows and min(r[0] for r in rows) <= fb.lineno:
+            _fail("%s: a draw precedes the statement that fixes the generator" % q)
+        fallbacks.append((q, fb._c06_style, "global_prng"))
+        sites += [(q, m, r) for _, m, r in sorted(rows)]
+    qs = lambda s_: '"%s"%%string' % s_.replace('"', '""')
+    tab = lambda rows: ";\n   ".join("(%s, %s, %s)" % tuple(qs(x) for x in r) for r in rows)
+    defs.append("(* src: pymoo_addon.py, every function that draws random numbers: (function, method drawn / helper handed the generator, object drawn from) *)\n"
+                "Definition k_draw_sites : list (string * string * string) :=\n  [%s].\n" % tab(sites))
+    defs.append("(* src: pymoo_addon.py: (function, where random_state comes from, what `if random_state is None: random_state = ...` falls back to) *)\n"
+                "Definition k_draw_fallbacks : list (string * string * string) :=\n  [%s].\n" % tab(fallbacks))
+    return len(sites)
+
+
+def _choice_args(call, where, fnname):
     if not (isinstance(call, ast.Call) and U(call.func) == fnname and len(call.args) == 2 and [kw.arg for kw in call.keywords] == ["replace"]
             and isinstance(call.keywords[0].value, ast.Constant) and isinstance(call.keywords[0].value.value, bool)):
         _fail("%s: expected %s(n, size, replace=<bool>): %s" % (where, fnname, U(call)))
@@ -352,7 +448,10 @@ def _choice_args(call, where, fnname="np.random.choice"):
 
 def _tiled_choice(repo, defs):
     fn = P.find_function(repo, ADDON, "tiled_choice")
-    if [a.arg for a in fn.args.args] != ["a", "size"]: _fail("tiled_choice: signature changed")
+    if ([a.arg for a in fn.args.args] != ["a", "size", "random_state"] or fn.args.vararg or fn.args.kwarg or fn.args.kwonlyargs or fn.args.posonlyargs
+            or [U(d) for d in fn.args.defaults] != ["None"]):
+        _fail("tiled_choice: signature is no longer (a, size, random_state=None)")
+    _rs_fallback(fn, "tiled_choice")
     Zc = lambda extra=(): P.Ctx("Z", dict({"a": "a", "size": "size"}, **dict(extra)))
     for nm in ("ndiv", "nrem"):
         e = P.the_assignment(fn, nm)
@@ -365,7 +464,7 @@ def _tiled_choice(repo, defs):
         _fail("tiled_choice: loop statement is not `out[lo:hi] = ...`: " + U(t))
     defs.append(P.definition("k_tc_lo", [("a", "Z"), ("i", "Z")], "Z", P.to_coq(t.slice.lower, P.Ctx("Z", {"a": "a", "i": "i"})), "tiled_choice: " + U(t)))
     defs.append(P.definition("k_tc_hi", [("a", "Z"), ("i", "Z")], "Z", P.to_coq(t.slice.upper, P.Ctx("Z", {"a": "a", "i": "i"})), "tiled_choice: " + U(t)))
-    n1, s1, r1 = _choice_args(v, "tiled_choice")
+    n1, s1, r1 = _choice_args(v, "tiled_choice", "random_state.choice")
     body = _stmts(fn.body)
     last = [s for s in body if isinstance(s, ast.Assign) and isinstance(s.targets[0], ast.Subscript) and U(s.targets[0].value) == "out"]
     if len(last) != 1: _fail("tiled_choice: expected one tail assignment `out[a*ndiv:] = ...`")
@@ -373,7 +472,7 @@ def _tiled_choice(repo, defs):
     if not (isinstance(t2.slice, ast.Slice) and t2.slice.lower is not None and t2.slice.upper is None and t2.slice.step is None):
         _fail("tiled_choice: tail is not `out[lo:] = ...`: " + U(t2))
     defs.append(P.definition("k_tc_tail", [("a", "Z"), ("ndiv", "Z")], "Z", P.to_coq(t2.slice.lower, P.Ctx("Z", {"a": "a", "ndiv": "ndiv"})), "tiled_choice: " + U(t2)))
-    n2, s2, r2 = _choice_args(v2, "tiled_choice")
+    n2, s2, r2 = _choice_args(v2, "tiled_choice", "random_state.choice")
     env = {"a": "a", "nrem": "nrem"}
     tup = lambda n, s, r: "(%s, %s, %s)" % (P.to_coq(n, P.Ctx("Z", env)), P.to_coq(s, P.Ctx("Z", env)), "true" if r else "false")
     defs.append(P.definition("k_tc_draws", [("a", "Z"), ("nrem", "Z")], "(Z * Z * bool) * (Z * Z * bool)", "(%s, %s)" % (tup(n1, s1, r1), tup(n2, s2, r2)),
@@ -440,7 +539,8 @@ def _mutator(repo, cls, tag, defs):
         _fail(W + ": nhcstep = " + U(e))
     defs.append(P.definition(k("nhcstep"), [("nloci", "nat"), ("opt", "option nat")], "nat", "match opt with None => nloci | Some v => v end", "%s: nhcstep = %s" % (W, U(e))))
     # guard: if nalleles == 0: return origin.X   (the first if of the function)
-    ifs = [n for n in ast.walk(fn) if isinstance(n, ast.If)]
+    fb = _rs_fallback(fn, W)
+    ifs = [n for n in ast.walk(fn) if isinstance(n, ast.If) and n is not fb]
     if len(ifs) != 1 or len(_stmts(ifs[0].body)) != 1 or not isinstance(_stmts(ifs[0].body)[0], ast.Return) or U(_stmts(ifs[0].body)[0].value) != "origin.X" or ifs[0].orelse:
         _fail(W + ": expected exactly one guard `if <no alleles>: return origin.X`")
     defs.append(P.definition(k("guard"), [("nalleles", "Z")], "bool", P.to_coq(ifs[0].test, P.Ctx("Z", {"nalleles": "nalleles"}), "bool"), "%s: if %s: return origin.X" % (W, U(ifs[0].test))))
@@ -448,8 +548,9 @@ def _mutator(repo, cls, tag, defs):
     pair = []
     for nm in ("lociix", "alleleix"):
         e = P.the_assignment(fn, nm)
-        if not (isinstance(e, ast.Call) and U(e.func) == "tiled_choice" and len(e.args) == 2 and not e.keywords): _fail(W + ": %s = %s" % (nm, U(e)))
-        pair.append("(%s, %s)" % tuple(P.to_coq(a, P.Ctx("Z", {"nloci": "nloci", "nalleles": "nalleles", "nhcstep": "nhcstep"})) for a in e.args))
+        if not (isinstance(e, ast.Call) and U(e.func) == "tiled_choice" and len(e.args) == 3 and not e.keywords and U(e.args[2]) == "random_state"):
+            _fail(W + ": expected %s = tiled_choice(<n>, <size>, random_state): %s" % (nm, U(e)))
+        pair.append("(%s, %s)" % tuple(P.to_coq(a, P.Ctx("Z", {"nloci": "nloci", "nalleles": "nalleles", "nhcstep": "nhcstep"})) for a in e.args[:2]))
     defs.append(P.definition(k("tiled"), [("nloci", "Z"), ("nalleles", "Z"), ("nhcstep", "Z")], "(Z * Z) * (Z * Z)", "(%s, %s)" % tuple(pair),
                              "%s: lociix = %s; alleleix = %s" % (W, U(P.the_assignment(fn, "lociix")), U(P.the_assignment(fn, "alleleix")))))
     # trial rows
@@ -472,7 +573,7 @@ def _mutator(repo, cls, tag, defs):
         _fail(W + ": non-dominated front computation changed")
     sel = U(P.the_assignment(fn, "selix"))
     if tag == "mutA":
-        if sel != "np.random.choice(len(pophc))": _fail(W + ": selix = " + sel)
+        if sel != "random_state.choice(len(pophc))": _fail(W + ": selix = " + sel)
     else:
         e = P.the_assignment(fn, "minix")
         if not (isinstance(e, ast.Call) and U(e.func) == "np.argmin" and len(e.args) == 1 and [(kw.arg, U(kw.value)) for kw in e.keywords] == [("axis", "0")]):
@@ -484,7 +585,7 @@ def _mutator(repo, cls, tag, defs):
         else:
             term = "(np_argmin0 nobj (np_take [] F ndix))"
         defs.append(P.definition(k("minix"), [("nobj", "nat"), ("F", "list (list Z)"), ("ndix", "list nat")], "list nat", term, "%s: minix = %s" % (W, U(e))))
-        if sel != "np.random.choice(minix)": _fail(W + ": selix = " + sel)
+        if sel != "random_state.choice(minix)": _fail(W + ": selix = " + sel)
     if U(P.the_assignment(fn, "indiv")) != "pophc[selix]" or U(P.the_assignment(fn, "out")) != "indiv.X": _fail(W + ": selection of the returned row changed")
 
 
@@ -589,9 +690,10 @@ def translate(repo, gen_dir):
     _mutator(repo, "MutatorA", "mutA", defs)
     _mutator(repo, "MutatorB", "mutB", defs)
     _rounding(repo, defs)
+    nsites = _draw_sites(repo, defs)
     nrows = _solution_table(repo, defs)
     text = (P.HEADER % "harness/translate/c06_kernel.py") + \
         "From Coq Require Import ZArith QArith Bool List String.\nFrom PV Require Import Lib.Common Model.C06_Opt.\nImport ListNotations.\nLocal Open Scope Z_scope.\n\n" + "\n".join(defs)
     path = os.path.join(gen_dir, "C06_Kernel.v")
     P.write_if_changed(path, text)
-    return {"file": "Gen/C06_Kernel.v", "definitions": len(defs), "solution_table_rows": nrows, "sha256": hashlib.sha256(text.encode()).hexdigest()[:16]}
+    return {"file": "Gen/C06_Kernel.v", "definitions": len(defs), "solution_table_rows": nrows, "draw_sites": nsites, "sha256": hashlib.sha256(text.encode()).hexdigest()[:16]}
